@@ -64,6 +64,12 @@ fn main() {
                     props::c03::child(tier, job, s, e, ctx, local)
                 })
             }
+            "C09" => {
+                let (hang, mem, stack) = props::c09::child_params(&job);
+                engine::isolate::child_main(start, end, step, hang, mem, stack, move |s, e, ctx, local| {
+                    props::c09::child(tier, job, s, e, ctx, local)
+                })
+            }
             other => machinery(&format!("no child entry for {other}")),
         }
     }
@@ -72,7 +78,11 @@ fn main() {
         "C02" => c02,
         "C03" => c03,
         "C04" => c04,
+        "C05" => c05,
         "C06" => c06,
+        "C07" => c07,
+        "C08" => c08,
+        "C09" => c09,
         "C10" => c10,
         "C11" => c11,
         "C12" => c12,
